@@ -17,7 +17,8 @@ THEOREMS = ["Rva.lint_codes_nodup", "Rva.lint_tables_total", "Rva.lint_severity_
             "Rva.jumpToFunction_reported", "Rva.functionFirst_reported", "Rva.controlFlow_silent",
             "Rva.garbageRead_reported", "Rva.garbageRead_silent", "Rva.stack_first_stop",
             "Rva.stackOffset_reported",
-            "Rva.useAfterCall_reported", "Rva.firstUsage_next"]
+            "Rva.useAfterCall_reported", "Rva.firstUsage_next",
+            "Rva.overwriteCalleeSaved_reported", "Rva.neverAssigned_reported"]
 
 
 def find(lines, pred):
@@ -185,6 +186,25 @@ def inject(rng, lines):
         new = L[:i] + [(f"    j {fname}", "injected")] + L[i + 1:]
         first = [k for k, (t, tag) in enumerate(new) if t == fname + ":"][0] + 1
         out.append(("jump-into-function", new, ("invalid-jump-to-function", {first, i}, None)))
+    # 12b: the same from inside another function (a tail jump instead of a call): the jumping
+    # instruction itself belongs to a function
+    fcalls = [i for i in calls if not (main_start < i < main_end)]
+    fcalls = [i for i in fcalls
+              if sum(1 for k in calls if L[k][0].split()[-1] == L[i][0].split()[-1]) >= 2]
+    # not a call of the enclosing function itself (a jump to its own label is a loop)
+    def enclosing(i):
+        for (a, b) in fns:
+            if a <= i <= b:
+                return L[a][0].rstrip(":")
+        return None
+    fcalls = [i for i in fcalls if enclosing(i) and enclosing(i) != L[i][0].split()[-1]]
+    if fcalls:
+        i = rng.choice(fcalls)
+        fname = L[i][0].split()[-1]
+        form = rng.choice([f"j {fname}", f"jal zero, {fname}", f"jal x0, {fname}"])
+        new = L[:i] + [("    " + form, "injected")] + L[i + 1:]
+        first = [k for k, (t, tag) in enumerate(new) if t == fname + ":"][0] + 1
+        out.append(("jump-into-function-from-function", new, ("invalid-jump-to-function", {first, i}, None)))
     # 14: a function as the first line of the program
     (a, b) = fns[-1]
     new = L[a:b + 1] + L[:a]
